@@ -75,6 +75,20 @@ CHECKS = {
         "Trusted: explorer/RngSeam (self-tested), models/stepmachine.py pick rule from statements.rst. Behaviors only (compose blocks not yet).",
         "3/C19",
     ),
+    "C11": (
+        "model_checking",
+        "ScriptedSimulator+fltl",
+        "bounded-exhaustive enumeration of formulas x ALL truth traces up to a length bound x declaration sites, verdicts compared with a "
+        "finite-trace LTL evaluator; early rejections checked by brute force over all continuations",
+        "All formulas of depth <= 2 over two atoms (fully parenthesised, plus the reference's unparenthesised forms) x every truth trace of "
+        "length 1..3 (thorough 1..4) x {top level, setup of a sub-scenario started at step 0/1, compose block at step 0/1}: accepted iff "
+        "the trace from the step the statement takes effect to the end of its scenario satisfies the formula (strong next/until); "
+        "rejection before the end only if no continuation satisfies; `always` of a non-temporal condition rejects at once; non-temporal "
+        "and/or/not/implies over the value alphabet {0,1,2,'','x'} have their Python truthiness meaning.",
+        "Trusted: models/fltl.py (40 lines). One known finding in the third-party rv_ltl package is attributed by substituting a corrected "
+        "monitor.",
+        "3/C11",
+    ),
 }
 
 NOT_YET = {}
